@@ -24,6 +24,9 @@ type (
 		wg       sync.WaitGroup
 		hook     DispatchHook
 
+		cxns        []*clientCxn // open client connections, in the order accepted
+		terminating bool
+
 		port            int
 		iface           string
 		persistBasePath string
@@ -96,6 +99,38 @@ func (eng *RedisEmu) RequestTermination() {
 		eng.cancelFn()
 		eng.cancelFn = nil
 	}
+
+	// close the client connections; WaitForTermination waits for them
+	eng.terminating = true
+	for _, cc := range eng.cxns {
+		cc.RequestClose()
+	}
+}
+
+// registers an accepted connection, to be closed upon termination
+func (eng *RedisEmu) trackCxn(cc *clientCxn) {
+	eng.mu.Lock()
+	eng.cxns = append(eng.cxns, cc)
+	if eng.terminating {
+		// accepted while termination was requested
+		cc.RequestClose()
+	}
+	eng.mu.Unlock()
+
+	eng.wg.Add(1)
+	go func() {
+		defer eng.wg.Done()
+		<-cc.done
+
+		eng.mu.Lock()
+		for i, c := range eng.cxns {
+			if c == cc {
+				eng.cxns = append(eng.cxns[:i], eng.cxns[i+1:]...)
+				break
+			}
+		}
+		eng.mu.Unlock()
+	}()
 }
 
 func (eng *RedisEmu) killSignalMonitor() {
@@ -227,7 +262,7 @@ func (eng *RedisEmu) startServer() {
 				break
 			}
 			eng.l.Infof("client connected: %s", connection.RemoteAddr().String())
-			newClientCxn(eng.l, connection, dispatcher)
+			eng.trackCxn(newClientCxn(eng.l, connection, dispatcher))
 		}
 	}()
 }
